@@ -36,6 +36,27 @@ func engineHistoryCLI(ctx *Ctx) {
 			pool = append(pool, vlib.GenQuery(r, words, 1+r.Intn(2), 0))
 		}
 		var model []string // validated queries in chronological order, immediate repeats collapsed
+		// some homes start with a history file that is almost full: the bound of 100 is then crossed by real searches
+		if i%3 == 0 {
+			nPre := 97 + r.Intn(4)
+			var sb strings.Builder
+			sb.WriteString("{\n  \"entries\": [\n")
+			for k := 0; k < nPre; k++ {
+				if k > 0 {
+					sb.WriteString(",\n")
+				}
+				q := fmt.Sprintf("old query %d", k%40)
+				if k > 0 && q == model[len(model)-1] {
+					q += " x"
+				}
+				model = append(model, q)
+				fmt.Fprintf(&sb, "    {\"query\": %q, \"timestamp\": \"2026-01-02T03:%02d:%02d.5Z\", \"results_count\": %d, \"context\": \"generic directory\", \"duration\": 3}", q, k/60, k%60, k%6)
+			}
+			sb.WriteString("\n  ],\n  \"max_size\": 100\n}")
+			os.MkdirAll(filepath.Dir(h.History()), 0o755)
+			os.WriteFile(h.History(), []byte(sb.String()), 0o644)
+			ctx.R.Path("cli-history-almost-full-start", 1)
+		}
 		for s := 0; s < 3+r.Intn(12); s++ {
 			q := strings.Join(strings.Fields(pool[r.Intn(len(pool))]), " ")
 			if q == "" {
@@ -47,6 +68,10 @@ func engineHistoryCLI(ctx *Ctx) {
 			}
 			if len(model) == 0 || model[len(model)-1] != q {
 				model = append(model, q)
+			}
+			if len(model) > 100 { // the log keeps the most recent 100
+				model = model[len(model)-100:]
+				ctx.R.Path("cli-history-bound-crossed", 1)
 			}
 		}
 		cs := map[string]interface{}{"searches_in_order": model}
